@@ -3,8 +3,9 @@ import json, os, sys, time
 
 VERIF = os.path.dirname(os.path.dirname(os.path.abspath(__file__)))
 KNOWN_FILE = os.path.join(VERIF, 'KNOWN_FINDINGS.txt')
-EVIDENCE_DIR = os.path.join(VERIF, 'evidence')
-REPLAY_DIR = os.path.join(VERIF, 'replay')
+# overridable so that mutant / refactoring experiments on scratch copies never touch the committed evidence
+EVIDENCE_DIR = os.environ.get('PKV_EVIDENCE_DIR') or os.path.join(VERIF, 'evidence')
+REPLAY_DIR = os.environ.get('PKV_REPLAY_DIR') or os.path.join(VERIF, 'replay')
 
 
 def load_known():
